@@ -381,8 +381,30 @@ func checkC19(c *Ctx) {
 
 func (c *Ctx) probeContext() {
 	p := c.P
-	ph := p.Fn("internal/loadbalancer", "LoadBalancer", "performHealthCheck")
-	construct := "loadbalancer.(*LoadBalancer).performHealthCheck"
+	// the function that sends the probe: whichever function reachable from checkBackendHealth (itself
+	// included) calls (*http.Client).Do
+	var ph *ssa.Function
+	if root := p.Fn("internal/loadbalancer", "LoadBalancer", "checkBackendHealth"); root != nil {
+		seenF := map[*ssa.Function]bool{}
+		var find func(f *ssa.Function, d int)
+		find = func(f *ssa.Function, d int) {
+			if f == nil || seenF[f] || d > 4 || !p.IsHelios(f) || ph != nil {
+				return
+			}
+			seenF[f] = true
+			for _, ci := range callsIn(f) {
+				if CalleeName(ci) == "(*net/http.Client).Do" || CalleeName(ci) == "(*net/http.Client).Get" || CalleeName(ci) == "net/http.Get" {
+					ph = f
+					return
+				}
+			}
+			for _, ci := range callsIn(f) {
+				find(StaticFn(ci), d+1)
+			}
+		}
+		find(root, 0)
+	}
+	construct := "loadbalancer.(*LoadBalancer)/probe-sender"
 	if ph == nil {
 		c.Missing("probe-carries-context", construct)
 		return
@@ -436,8 +458,13 @@ func (c *Ctx) probeContext() {
 	}
 	var probe ssa.Instruction
 	instrsOf(cb, func(in ssa.Instruction) {
-		if ci, ok := in.(ssa.CallInstruction); ok && strings.HasSuffix(CalleeName(ci), "LoadBalancer).performHealthCheck") {
-			probe = in
+		if ci, ok := in.(ssa.CallInstruction); ok {
+			if f := StaticFn(ci); f != nil && f == ph && ph != cb {
+				probe = in
+			}
+			if ph == cb && (CalleeName(ci) == "(*net/http.Client).Do" || CalleeName(ci) == "net/http.NewRequestWithContext") && probe == nil {
+				probe = in
+			}
 		}
 	})
 	ok := false
